@@ -19,22 +19,27 @@ structure Same (a b : R) : Prop where
 
 theorem Same.refl (a : R) : Same a a := ⟨rfl, rfl, rfl, rfl, rfl, rfl, rfl⟩
 
-def One (t : Tag) (r r' : R) : Prop := Same r r' ∨ Same (readTagValue r t).r r'
+/-- the only situations in which a field parser reads from the stream: the tag is out of line, or its type is ASCII
+or rational (a date, zone or rational parser then reads whatever the count says) -/
+def Reads (t : Tag) : Prop :=
+  t.isEmbedded = false ∨ isASCII t = true ∨ t.typ = tASCII ∨ isRat t = true ∨ t.typ = tRational
+
+def One (t : Tag) (r r' : R) : Prop := Same r r' ∨ (Same (readTagValue r t).r r' ∧ Reads t)
 
 theorem One.refl {t : Tag} (r : R) : One t r r := Or.inl (Same.refl r)
-theorem One.read (r : R) (t : Tag) : One t r (readTagValue r t).r := Or.inr (Same.refl _)
+theorem One.read (r : R) (t : Tag) (h : Reads t) : One t r (readTagValue r t).r := Or.inr ⟨Same.refl _, h⟩
 theorem One.upd {t : Tag} {r r1 : R} (h : One t r r1) (f : Rec → Rec) : One t r (r1.upd f) := by
   rcases h with h | h
   · exact Or.inl ⟨h.rest, h.po, h.exl, h.buffered, h.tags, h.pos, h.reads⟩
-  · exact Or.inr ⟨h.rest, h.po, h.exl, h.buffered, h.tags, h.pos, h.reads⟩
+  · exact Or.inr ⟨⟨h.1.rest, h.1.po, h.1.exl, h.1.buffered, h.1.tags, h.1.pos, h.1.reads⟩, h.2⟩
 theorem One.addAlloc {t : Tag} {r r1 : R} (h : One t r r1) (n : Nat) : One t r (r1.addAlloc n) := by
   rcases h with h | h
   · exact Or.inl ⟨h.rest, h.po, h.exl, h.buffered, h.tags, h.pos, h.reads⟩
-  · exact Or.inr ⟨h.rest, h.po, h.exl, h.buffered, h.tags, h.pos, h.reads⟩
+  · exact Or.inr ⟨⟨h.1.rest, h.1.po, h.1.exl, h.1.buffered, h.1.tags, h.1.pos, h.1.reads⟩, h.2⟩
 theorem One.setAlloc {t : Tag} {r r1 : R} (h : One t r r1) (n : Nat) : One t r { r1 with alloc := n } := by
   rcases h with h | h
   · exact Or.inl ⟨h.rest, h.po, h.exl, h.buffered, h.tags, h.pos, h.reads⟩
-  · exact Or.inr ⟨h.rest, h.po, h.exl, h.buffered, h.tags, h.pos, h.reads⟩
+  · exact Or.inr ⟨⟨h.1.rest, h.1.po, h.1.exl, h.1.buffered, h.1.tags, h.1.pos, h.1.reads⟩, h.2⟩
 
 def OneP {β} (t : Tag) (x : Outcome (R × β)) (r : R) : Prop := ∀ r' v, x = .ok (r', v) → One t r r'
 def OneO (t : Tag) (x : Outcome R) (r : R) : Prop := ∀ r', x = .ok r' → One t r r'
@@ -42,13 +47,12 @@ def OneO (t : Tag) (x : Outcome R) (r : R) : Prop := ∀ r', x = .ok r' → One 
 set_option hygiene false in
 macro "one_leaves" : tactic => `(tactic|
   all_goals (first
-    | (simp only [Outcome.ok.injEq, Prod.mk.injEq] at h; obtain ⟨h1, _⟩ := h; subst h1; first | exact One.refl _ | assumption)
+    | (simp only [Outcome.ok.injEq, Prod.mk.injEq] at h; obtain ⟨h1, _⟩ := h; subst h1; first | exact One.refl _ | assumption | (apply One.read; unfold Reads; simp_all))
     | (simp at h; done)))
 
 theorem OneP.parseBytes (r : R) (t : Tag) (s : Bool) : OneP t (parseBytes r t s) r := by
   intro r' v h
   unfold Exif.parseBytes at h
-  have := One.read r t
   repeat' (first | split at h | (simp only [bind, Outcome.bind] at h))
   one_leaves
 
@@ -68,7 +72,6 @@ theorem OneP.parseString (r : R) (t : Tag) : OneP t (parseString r t) r := by
 set_option hygiene false in
 macro "one_parser" : tactic => `(tactic| (
   intro r' v h
-  have := One.read r t
   repeat' (first | split at h | (simp only [bind, Outcome.bind] at h))
   one_leaves))
 
